@@ -18,7 +18,8 @@ MODELRUN = os.path.join(VERIF, 'ocaml/modelrun')
 
 OBJ = ['O1', 'O2', 'O3', 'EMPTY']
 FUN = ['F1', 'F2', 'F3', 'F4', 'G']
-PLAIN = ['a', 'b', 'c', 'x', 'y', '1', '2', '42', '+', '-', '*', ';', '[', ']', '"s"', "'c'", '==', '<', '0x1f', '1.5']
+PLAIN = ['a', 'b', 'c', 'x', 'y', '1', '2', '42', '+', '-', '*', ';', '[', ']', '"s"', "'c'", '==', '<', '0x1f', '1.5',
+         "L'\\n'", "u'\\\\'", '"a\\"b"', 'L"q\\\\"', "'\\''", 'u8"\\n"', "U'\\x41'", "'\\0'", '"\\\\"']
 
 class Gen:
     def __init__(self, rng, exotic):
@@ -123,14 +124,33 @@ class Gen:
         return '\n'.join(lines) + '\n'
 
 
+def c_unescape(t):
+    """the characters a string literal body denotes (simple, octal and hexadecimal escapes)"""
+    out = []; i = 0
+    simple = {'n': '\n', 't': '\t', 'a': '\a', 'b': '\b', 'f': '\f', 'r': '\r', 'v': '\v', '\\': '\\', '"': '"', "'": "'", '?': '?'}
+    while i < len(t):
+        c = t[i]
+        if c != '\\' or i + 1 >= len(t): out.append(c); i += 1; continue
+        d = t[i + 1]
+        if d in simple: out.append(simple[d]); i += 2
+        elif d in '01234567':
+            j = i + 1
+            while j < len(t) and j < i + 4 and t[j] in '01234567': j += 1
+            out.append(chr(int(t[i + 1:j], 8) & 255)); i = j
+        elif d == 'x':
+            j = i + 2
+            while j < len(t) and t[j] in '0123456789abcdefABCDEF': j += 1
+            out.append(chr(int(t[i + 2:j] or '0', 16) & 255)); i = j
+        else: out.append(c); i += 1
+    return ''.join(out)
+
 def norm_tok(h):
-    """a string literal is compared by the token list of its contents: where white space stands around the
-    place of an EMPTY argument is not fixed by C11 (placemarkers), but 'ab' vs 'a b' is"""
+    """a string literal is compared by the token list of the characters it DENOTES (escapes interpreted, so a missing or extra
+    backslash shows): where white space stands around the place of an EMPTY argument is not fixed by C11 (placemarkers), but 'ab' vs 'a b' is"""
     b = bytes.fromhex(h)
     if not b.startswith(b'"'): return h
-    t = b[1:-1].decode('latin-1')
-    t = re.sub(r'\\(["\\])', r'\1', t)
-    return 'S:' + ' '.join(re.findall(r'"(?:\\.|[^"\\])*"|\'(?:\\.|[^\'\\])*\'|[A-Za-z0-9_.]+|\S', t))
+    t = c_unescape(b[1:-1].decode('latin-1'))
+    return 'S:' + ' '.join(re.findall(r'"(?:\\.|[^"\\])*"|\'(?:\\.|[^\'\\])*\'|[A-Za-z0-9_.]+|\s|\S', t)).replace('  ', ' ')
 
 def toks_from_dump(out):
     r = []
